@@ -1,5 +1,6 @@
 // C17 harness: T threads run the same deterministic workload on thread-private polynomials (construct, transform, add,
-// multiply, compare, big-integer conversion both ways, serialise); every thread's digest must equal the digest of the
+// multiply, compare, big-integer conversion both ways, serialise; polynomials built by the random distributions: consistency only, the
+// byte stream is shared); every thread's digest must equal the digest of the
 // sequential run, and the shared tables (poly::base, poly::gmp) must be byte-identical before and after.
 // Usage: h_conc <threads> <rounds>   -> prints "ref=<d> ok=<k>/<T> tables=<unchanged|CHANGED> "
 #include <cstdio>
@@ -86,6 +87,38 @@ template <class P> static bool shared_handles(int T, int rounds) {
   }
   return ok;
 }
+// thread-private polynomials built by every random distribution (each thread has its own polynomial and its own Gaussian sampler; the
+// byte generator is the shared one, C18): residues canonical, and for every distribution but the uniform one the residues of a coefficient
+// represent ONE small signed integer across the moduli (C09) -- also when other threads sample at the same time.  Returns the violations.
+template <class P> static ull sampler_bad(int rounds, nfl::FastGaussianNoise<uint8_t, typename P::value_type, 2>* fg) {
+  typedef typename P::value_type T;
+  P* x = alloc_aligned<P, 32>(1); P& a = x[0]; ull bad = 0;
+  auto check = [&](bool small) {
+    for (size_t i = 0; i < P::degree; i++) { long long v0 = 0;
+      for (size_t cm = 0; cm < P::nmoduli; cm++) { ull r = a(cm, i), p = P::get_modulus(cm); if (r >= p) bad++;
+        if (small) { long long v = (r > p / 2) ? (long long)r - (long long)p : (long long)r; if (cm == 0) v0 = v; else if (v != v0) bad++; } } } };
+  for (int r = 0; r < rounds; r++) {
+    a.set(nfl::uniform()); check(false);
+    a.set(nfl::non_uniform(5)); check(true);
+    a.set(nfl::ZO_dist()); check(true);
+    a.set(nfl::hwt_dist(P::degree / 4 + 1)); check(true);
+    a.set(nfl::gaussian<uint8_t, T, 2>(fg)); check(true);
+    a.set(nfl::gaussian<uint8_t, T, 2>(fg, 3)); check(true);
+  }
+  free_aligned(1, x);
+  return bad;
+}
+template <class P> static void go_samplers(int T, int rounds, std::ostringstream& os) {
+  typedef nfl::FastGaussianNoise<uint8_t, typename P::value_type, 2> G;
+  std::vector<G*> fg; for (int t = 0; t < T; t++) fg.push_back(new G(3.0, 40, 1024));      // built one after the other, before any thread starts
+  ull seq = 0; for (int t = 0; t < T; t++) seq += sampler_bad<P>(rounds, fg[t]);
+  std::vector<ull> got(T, 0); std::vector<std::thread> th;
+  for (int t = 0; t < T; t++) th.emplace_back([&, t] { got[t] = sampler_bad<P>(rounds * 4, fg[t]); });
+  for (auto& x : th) x.join();
+  ull par = 0; for (int t = 0; t < T; t++) par += got[t];
+  for (int t = 0; t < T; t++) delete fg[t];
+  os << "samplers=" << ((seq == 0 && par == 0) ? "consistent" : "INCONSISTENT") << "(" << seq << "," << par << ") ";
+}
 static int g_mode = 0;   // 0 = everything, 1 = private-object workload only, 2 = shared-payload handles only
 template <class P> static void go(int T, int rounds, std::ostringstream& os) {
   if (g_mode == 2) { os << "shared-handles=" << (shared_handles<P>(T, rounds) ? "isolated" : "CORRUPTED") << " "; return; }
@@ -109,6 +142,7 @@ int main(int argc, char** argv) {
   go<nfl::poly<uint16_t, 64, 2> >(T, rounds, os);
   go<nfl::poly<uint32_t, 256, 3> >(T, rounds, os);
   go<nfl::poly<uint64_t, 128, 2> >(T, rounds, os);
+  if (g_mode != 2) { go_samplers<nfl::poly<uint16_t, 64, 2> >(T, rounds, os); go_samplers<nfl::poly<uint32_t, 256, 3> >(T, rounds, os); go_samplers<nfl::poly<uint64_t, 128, 2> >(T, rounds, os); }
   // the largest degrees (size-dependent code paths: scratch areas, table slices), fewer threads and one round
   { int keep = g_mode; if (g_mode != 2) { g_mode = 1; int Tb = T < 4 ? T : 4;
       go<nfl::poly<uint16_t, 512, 2> >(Tb, 1, os); go<nfl::poly<uint32_t, 32768, 1> >(Tb, 1, os); go<nfl::poly<uint64_t, 8192, 2> >(Tb, 1, os); }
